@@ -1041,6 +1041,9 @@ def type_forms():
         out.append(("member:" + m, ["ty", m], m))
     out += [("decimal(p,s)", S_("DECIMAL(10,2)"), "DECIMAL"), ("decimal(p,s)", S_("decimal(38,38)"), "DECIMAL"), ("decimal(p,s)", S_("DECIMAL(5, 0)"), "DECIMAL"),
             ("decimal(p,s)", S_("DECIMAL(0,0)"), "DECIMAL"),
+            ("wide-decimal(p,s)", S_("DECIMAL(38,2)"), "DECIMAL"), ("wide-decimal(p,s)", S_("DECIMAL(20,4)"), "DECIMAL"),
+            ("wide-decimal(p,s)", S_("DECIMAL(38,0)"), "DECIMAL"), ("wide-decimal(p,s)", S_("decimal(38,30)"), "DECIMAL"),
+            ("wide-decimal(p,s)", S_("DECIMAL(24, 6)"), "DECIMAL"),
             ("varchar[n]", S_("VARCHAR[10]"), "VARCHAR"), ("varchar[n]", S_("varchar[0]"), "VARCHAR"), ("blob[n]", S_("BLOB[3]"), "BLOB"),
             ("blob[n]", S_("BLOB[65536]"), "BLOB")]
     for t in SCALARS:
@@ -1061,8 +1064,8 @@ def _rand_type(rng):
         m = rng.choice([x for x in MEMBERS if x != "ARRAY"])
         return ("member:" + m, ["ty", m], m)
     if r < 0.68:
-        p = rng.choice([0, 1, 5, 10, 28, 38])
-        s = rng.choice([x for x in (0, 1, 2, 5, 10, 21, 38) if x <= p])
+        p = rng.choice([0, 1, 5, 10, 17, 20, 28, 38, 38])
+        s = rng.choice([x for x in (0, 0, 1, 2, 4, 5, 10, 21, 30, 38) if x <= p])
         return ("decimal(p,s)", S_(_case_variant(rng, "DECIMAL(%d,%s%d)" % (p, rng.choice(["", " "]), s))), "DECIMAL")
     if r < 0.78:
         return ("varchar[n]", S_(_case_variant(rng, "VARCHAR[%d]" % rng.choice([0, 1, 10, 255, 2 ** 31]))), "VARCHAR")
@@ -1085,6 +1088,36 @@ def _ident(rng):
     return "%016x" % rng.getrandbits(64)
 
 
+def _dec_ev(text):
+    import decimal
+
+    u, e = _norm_dec(decimal.Decimal(text))
+    return ["d", u, e]
+
+
+def _wide_decimal(rng, p, sc):
+    """a value using (nearly) all p significant digits of DECIMAL(p,sc): more than a binary64 can hold when p > 15;
+    given as a Decimal or as text, positive or negative"""
+    ni = p - sc
+    ip = "".join(rng.choice("0123456789") for _ in range(ni)).lstrip("0") if ni else ""
+    if ni and rng.random() < 0.6:
+        ip = rng.choice("123456789") + "".join(rng.choice("0123456789") for _ in range(ni - 1))
+    fp = "".join(rng.choice("0123456789") for _ in range(sc))
+    if sc and rng.random() < 0.6:
+        fp = fp[:-1] + rng.choice("123456789")
+    text = ("-" if rng.random() < 0.4 else "") + (ip or "0") + ("." + fp if sc else "")
+    return S_(text) if rng.random() < 0.3 else _dec_ev(text)
+
+
+def _decimal_params(tev):
+    import re
+
+    if tev is None or tev[0] != "s":
+        return 28, 21                 # a DECIMAL column declared without parameters: context precision, 3/4 of it
+    m = re.match(r"DECIMAL\((\d+),\s*(\d+)\)", str(tev[1]).upper())
+    return (int(m.group(1)), int(m.group(2))) if m else (28, 21)
+
+
 def _column(rng, name, toggles=None, form=None):
     """toggles: set of optional attributes to give (None = random)"""
     label, tev, base = form if form is not None else _rand_type(rng)
@@ -1094,7 +1127,9 @@ def _column(rng, name, toggles=None, form=None):
         kw.append(["type", tev])
     if on("default"):
         pool = DEFAULTS.get(base, [])
-        if pool:
+        if base == "DECIMAL" and (rng.random() < 0.6 or label.startswith("wide-decimal")):
+            kw.append(["default", _wide_decimal(rng, *_decimal_params(tev))])
+        elif pool:
             kw.append(["default", rng.choice(pool if toggles is None else pool[:3])])
     if on("aliases"):
         kw.append(["aliases", rng.choice([["l", [S_(name + "_a")]], ["l", [S_(name + "_a"), S_(name + "_b")]], ["n"], ["l", []]]) if toggles is None else ["l", [S_(name + "_a")]]])
@@ -1323,6 +1358,13 @@ def corpus():
     # F-C16-11 (fixed by 58338dc): an ARRAY<TIME> column with a default built but could not be restored, serialised or flattened
     yield _one([[["name", S_("ts")], ["type", S_("ARRAY<TIME>")], ["default", ["l", [I_(1), I_(2)]]], ["identity", _ID[0]]]])
     yield _one([[["name", S_("t")], ["type", S_("TIME")], ["default", I_(3)], ["identity", _ID[0]]]])
+    # DECIMAL defaults with more significant digits than a binary64 holds must survive to_json / from_json exactly
+    # (seeded change: the JSON hook wrote Decimals as float)
+    yield _one([[["name", S_("balance")], ["type", S_("DECIMAL(20,4)")], ["default", S_("1234567890123456.7891")], ["identity", _ID[0]]],
+                [["name", S_("huge")], ["type", S_("DECIMAL(38,2)")], ["default", _dec_ev("123456789012345678901234.56")], ["identity", _ID[1]]],
+                [["name", S_("tiny")], ["type", S_("DECIMAL(38,30)")], ["default", S_("0.123456789012345678901234567891")], ["identity", _ID[2]]],
+                [["name", S_("negative")], ["type", S_("DECIMAL(24,6)")], ["default", _dec_ev("-999999999999999999.000001")], ["identity", _ID[3]]],
+                [["name", S_("whole")], ["type", S_("DECIMAL(38,0)")], ["default", _dec_ev("-12345678901234567890123456789012345678")], ["identity", _ID[4]]]])
     # 6cdb3c9: falsy defaults are cast too, with the column's own parameters
     yield _one([[["name", S_("b")], ["type", S_("BLOB")], ["default", ["y", []]], ["identity", _ID[0]]],
                 [["name", S_("v")], ["type", S_("VARCHAR[3]")], ["default", S_("abcdef")], ["identity", _ID[1]]],
